@@ -85,12 +85,61 @@ def _slots(ctx: Ctx) -> tuple[str, str, str, FuncInfo]:
     return state, cache, flag, getter
 
 
+def _discover_caches(ctx: Ctx) -> list[tuple[str, str, str, FuncInfo]]:
+    """Every flag-guarded cache of the package: a method with a top-level
+    ``if self.<flag>: self.<cache> = f(.. self.<state> ..); self.<flag> =
+    False``.  A cache added later (say, a gate tree of the *incoming* sets)
+    carries the same obligation as the pinned one."""
+    out = []
+    for fi in ctx.index.all_functions():
+        ps = fi.params()
+        if not ps or ps[0] != "self":
+            continue
+        for i in fi.node.body:
+            if not (isinstance(i, ast.If) and isinstance(
+                    i.test, ast.Attribute) and isinstance(
+                    i.test.value, ast.Name) and i.test.value.id == "self"):
+                continue
+            flag = i.test.attr
+            cache = state = None
+            clears = False
+            for st in i.body:
+                if isinstance(st, ast.Assign) and isinstance(
+                        st.targets[0], ast.Attribute) and isinstance(
+                        st.value, ast.Call):
+                    for a in ast.walk(st.value):
+                        if isinstance(a, ast.Attribute) and isinstance(
+                                a.value, ast.Name) and a.value.id == "self" \
+                                and a.attr != flag:
+                            cache, state = st.targets[0].attr, a.attr
+                if isinstance(st, ast.Assign) and isinstance(
+                        st.targets[0], ast.Attribute) and \
+                        st.targets[0].attr == flag and isinstance(
+                        st.value, ast.Constant) and st.value.value is False:
+                    clears = True
+            if cache and state and clears:
+                out.append((state, cache, flag, fi))
+    return out
+
+
 def r41(rep: Report, ctx: Ctx) -> None:
     state, cache, flag, getter = _slots(ctx)
     rep.rule("R4.1", f"cache coherence: every write of <x>.{state} marks "
              f"<x>.{flag}", 4)
     rep.analysed["typestate_slots"] = {"state": state, "cache": cache,
                                        "flag": flag}
+    _coherence(rep, ctx, state, cache, flag, getter, 3)
+    others = [t for t in _discover_caches(ctx)
+              if (t[0], t[1], t[2]) != (state, cache, flag)]
+    rep.analysed["other_flag_guarded_caches"] = [
+        {"state": t[0], "cache": t[1], "flag": t[2], "getter": t[3].qualname}
+        for t in others]
+    for st, ca, fl, g in others:
+        _coherence(rep, ctx, st, ca, fl, g, 0)
+
+
+def _coherence(rep: Report, ctx: Ctx, state: str, cache: str, flag: str,
+               getter: FuncInfo, min_writes: int) -> None:
     # the getter recomputes iff the flag is set, then clears it
     i = [s for s in getter.node.body if isinstance(s, ast.If)][0]
     clears = [s for s in i.body if isinstance(s, ast.Assign)
@@ -157,7 +206,7 @@ def r41(rep: Report, ctx: Ctx) -> None:
                            "not set on every path to the exit: the cached "
                            "gate tree stays stale (None for a freshly loaded "
                            "event) and the event's logic is lost"))
-    if n_writes < 3:
+    if n_writes < min_writes:
         raise AnalysisError(f"only {n_writes} writes of .{state} found")
     # aliases of the protected set must not be mutated
     for fi in ctx.index.all_functions():
